@@ -537,6 +537,9 @@ STMTS = [
     "{% do D|list|length %}{% set t = (D, ys) %}{% set t2 = t + (1,) %}{% set u, v = ys %}{% set u = 0 %}{{ ys|length }}",
     "{{ range(ys|first)|list|length }}{{ lipsum(n=1, html=false)|length > 0 }}{{ dict(a=D).a is defined }}{{ (D, ys)|tojson|length }}",
     "{% call(x) cm(D) %}{% set x = 0 %}{{ x }}{% endcall %}{% call cm2() %}{{ D|length }}{% endcall %}",
+    # attribute assignment and set blocks aimed directly at the data
+    "{% set D.k %}v{% endset %}", "{% set D.k = 1 %}", "{% set d.k, D.j = 1, 2 %}", "{% for i in ys %}{% set D.k %}{{ i }}{% endset %}{% endfor %}",
+    "{% macro m(t) %}{% set t.k %}v{% endset %}{% endmacro %}{{ m(D) }}{{ m(d) }}", "{% set D.k | upper %}v{% endset %}",
 ]
 STMT_PRE = "{% macro cm(v) %}{{ caller(v) }}{% endmacro %}{% macro cm2() %}{{ caller() }}{% endmacro %}"
 ST_T = []
